@@ -109,7 +109,7 @@ def lin(node, env=None) -> Lin | None:
         if isinstance(f, ast.Name) and f.id == "int" and len(node.args) == 1:
             return lin(node.args[0], env)
         return None
-    if isinstance(node, ast.Subscript):
+    if isinstance(node, ast.Subscript) and not isinstance(node.slice, ast.Slice):
         return Lin(0, {U(node): 1})
     if isinstance(node, ast.BoolOp) and isinstance(node.op, ast.Or) and len(node.values) == 2:
         a, b = node.values
@@ -313,6 +313,13 @@ class Facts:
                 elif ("none", x) in self.d:
                     pool.append(Lin(0, {s: 1}))
                     pool.append(Lin(0, {s: -1}))
+        for s in syms_all:
+            if s.startswith("len("):
+                pool.append(Lin(0, {s: 1}))
+        for t in self.tagged("nez"):
+            for s, _ in t[1][1]:
+                if s.startswith("len("):
+                    pool.append(Lin(0, {s: 1}))
         # e != 0 together with e >= 0 gives e >= 1 (integers)
         keys = {f.key() for f in pool}
         for t in self.tagged("nez"):
